@@ -13,7 +13,12 @@
 //!      - `port`  (fault class F4): ONE port of ONE op reads `value + delta` while every
 //!        other row keeps the shared value; the op's result is computed from the deviated
 //!        value and propagated,
-//!      - `sibling` : private data of a non-primitive op (Merkle sibling limbs).
+//!      - `sibling` : private data of a non-primitive op (Merkle sibling limbs),
+//!      - `inherited` (fault class F5): ONE input limb of ONE permutation row that is NOT fed
+//!        from a witness slot (it inherits the previous row's output inside the table) takes a
+//!        value chosen by the prover; the row is computed by the repository's executor from
+//!        that value, its outputs go to the chain state (following rows inherit them), to the
+//!        slots fed by `out_ctl` and from there to every dependent op.
 //!  * real NPO executors are called through the public `ExecutionContext` on a scratch
 //!    view of the witness, and real trace generators build the NPO traces, so NPO rows are
 //!    recorded by the repository's own code.
@@ -63,6 +68,12 @@ pub enum Port {
     In(usize, usize),
 }
 
+/// Element index that marks `Port::In(limb, INHERITED)`: the input limb `limb` of a permutation
+/// row that has NO witness slot (empty input group) — the value the row inherits from the
+/// previous row of its chain. (A marker instead of a new `Port` variant: check crates match
+/// `Port` and `Fault` exhaustively.)
+pub const INHERITED: usize = usize::MAX;
+
 impl Port {
     pub fn name(&self) -> String {
         match self {
@@ -71,6 +82,7 @@ impl Port {
             Port::C => "c".into(),
             Port::Out => "out".into(),
             Port::Acc => "acc".into(),
+            Port::In(g, e) if *e == INHERITED => format!("in{g}.inherited"),
             Port::In(g, e) => format!("in{g}.{e}"),
         }
     }
@@ -84,6 +96,16 @@ pub struct Deviation<F> {
     pub ports: Vec<(usize, Port, Change<F>)>,
     /// (op id, limb index) -> change of a private sibling limb
     pub siblings: Vec<(NonPrimitiveOpId, usize, Change<F>)>,
+    /// (index into `circuit.ops`, input limb, value): the slot-less input limb (empty input
+    /// group) of this permutation op takes `value` instead of what the row would inherit from
+    /// its chain (or instead of the zero of a `new_start` row). Limb = index into the op's
+    /// `inputs`, i.e. the executor's state position BEFORE a Merkle direction swap.
+    /// Carried out by handing the executor a scratch slot holding `value` for that limb: the
+    /// repository's own code overwrites the inherited state element, permutes, records the row,
+    /// writes the outputs and advances the chain. The recorded row then names the scratch slot
+    /// (`in_ctl`, `input_indices`); callers restore those two fields from the honest row (they
+    /// feed preprocessed columns, which the verifier fixes from the circuit anyway).
+    pub inherited: Vec<(usize, usize, F)>,
     /// Let the propagation reach *public outputs*: a public input slot that a later op also
     /// computes (`connect(result, public)`) is re-chosen by the prover to equal the computed
     /// value (the verifier is not given public values: they are committed by the prover
@@ -97,6 +119,7 @@ impl<F> Deviation<F> {
             slots: vec![],
             ports: vec![],
             siblings: vec![],
+            inherited: vec![],
             adapt_publics: false,
         }
     }
@@ -405,6 +428,20 @@ fn execute_once<F: Field>(
                         }
                     }
                 }
+                // F5: a slot-less limb takes a prover-chosen value through a scratch slot
+                let mut nin_dev: Option<Vec<Vec<WitnessId>>> = None;
+                for (o, limb, v) in &st.dev.inherited {
+                    if *o != oi {
+                        continue;
+                    }
+                    if !nin.get(*limb).is_some_and(|g| g.is_empty()) {
+                        return Err(format!("op {oi}: input limb {limb} is not slot-less"));
+                    }
+                    let id = WitnessId(scratch.len() as u32);
+                    scratch.push(Some(*v));
+                    nin_dev.get_or_insert_with(|| nin.clone())[*limb] = vec![id];
+                }
+                let nin: &Vec<Vec<WitnessId>> = nin_dev.as_ref().unwrap_or(nin);
                 {
                     let mut ctx = ExecutionContext::new(
                         &mut scratch,
